@@ -149,6 +149,10 @@ class C14(Hist1Prop):
                     var = (e["sum2"] - e["sum"] ** 2 / e["weight"]) / e["weight"]
                     if st["variance"] is None or abs(Fraction(st["variance"]) - var) > abs(var) * Fraction(1, 10**9) + Fraction(1, 10**9):
                         fails.append(f"variance_{name}: variance() = {st['variance']}, population variance of the data = {var}")
+                    elif var >= 0 and st.get("_std") is not None:
+                        sd = Fraction(st["_std"])
+                        if sd < 0 or abs(sd * sd - var) > abs(var) * Fraction(1, 10**9) + Fraction(1, 10**9):
+                            fails.append(f"std_{name}: std() = {float(sd)}, but its square is not the population variance {float(var)}")
             else:
                 if st["mean"] is not None:
                     fails.append(f"mean_empty_{name}: weight 0 but mean() = {st['mean']}")
